@@ -14,22 +14,23 @@ _orig_tok_text = A.tok_text
 
 
 class Gen:
-    def __init__(self, rng):
+    def __init__(self, rng, spell=True):
         self.rng = rng
+        self.spell = spell
         self.exps = []     # expression trees, referenced by index
 
     def exp(self, depth=2):
-        self.exps.append(A.gen_exp(self.rng, depth, True))
+        self.exps.append(A.gen_exp(self.rng, depth, self.spell))
         return len(self.exps) - 1
 
     def var(self):
         r = self.rng
         t = ("name", r.below(6))
         for _ in range(r.below(3)):
-            if r.chance(1, 2):
+            if r.chance(1, 2) and self.spell:
                 t = ("dot", t, r.below(6))
             else:
-                t = ("idx", t, A.gen_exp(r, 1, True))
+                t = ("idx", t, A.gen_exp(r, 1, self.spell))
         self.exps.append(t)
         return len(self.exps) - 1
 
@@ -37,11 +38,11 @@ class Gen:
         r = self.rng
         t = ("name", r.below(6))
         if r.chance(1, 3):
-            t = ("dot", t, r.below(6))
-        args = [A.gen_exp(r, 1, True) for _ in range(r.below(3))]
+            t = ("dot", t, r.below(6)) if self.spell else ("idx", t, ("str", r.below(6)))
+        args = [A.gen_exp(r, 1, self.spell) for _ in range(r.below(3))]
         m = r.below(6) if r.chance(1, 3) else "-"
         bare = 0
-        if r.chance(1, 4):
+        if self.spell and r.chance(1, 4):
             bare = 1
             args = [("str", r.below(6))]
         self.exps.append(("call", t, m, bare) + tuple(args))
@@ -106,6 +107,55 @@ class Gen:
 
 def nm(k):
     return "name:%d" % k
+
+
+def tree_sx(b, exps):
+    """statement tree -> s-expression for the oracle's RS command"""
+    def e(i):
+        return A.sx(exps[i])
+
+    def blk(b):
+        parts = [st(s) for s in b[1]]
+        if b[2] is not None:
+            parts.append("(return" + "".join(" " + e(i) for i in b[2][0]) + ")")
+        return "(block" + "".join(" " + p for p in parts) + ")"
+
+    def st(s):
+        h = s[0]
+        if h in ("empty", "break"):
+            return "(%s)" % h
+        if h in ("goto", "label"):
+            return "(%s %d)" % (h, s[1])
+        if h == "local":
+            return "(local (%s)%s)" % (" ".join("(%d %d)" % ka for ka in s[1]), "".join(" " + e(i) for i in s[2]))
+        if h == "assign":
+            return "(assign (%s)%s)" % (" ".join(e(i) for i in s[1]), "".join(" " + e(i) for i in s[2]))
+        if h == "callstat":
+            return "(callstat %s)" % e(s[1])
+        if h == "do":
+            return "(do %s)" % blk(s[1])
+        if h == "while":
+            return "(while %s %s)" % (e(s[1]), blk(s[2]))
+        if h == "repeat":
+            return "(repeat %s %s)" % (blk(s[1]), e(s[2]))
+        if h == "if":
+            out = "(if %s %s" % (e(s[1]), blk(s[2]))
+            for c, bb in s[3]:
+                out += " (elseif %s %s)" % (e(c), blk(bb))
+            if s[4] is not None:
+                out += " (else %s)" % blk(s[4])
+            return out + ")"
+        if h == "fornum":
+            return "(fornum %d %s %s %s %s)" % (s[1], e(s[2]), e(s[3]), e(s[4]) if s[4] is not None else "-", blk(s[5]))
+        if h == "forin":
+            return "(forin (%s) (%s) %s)" % (" ".join(str(k) for k in s[1]), " ".join(e(i) for i in s[2]), blk(s[3]))
+        if h == "funcstat":
+            return "(funcstat (%s) %s (%s) %d %s)" % (" ".join(str(k) for k in s[1]), s[2] if s[2] is not None else "-",
+                                                      " ".join(str(k) for k in s[3]), 1 if s[4] else 0, blk(s[5]))
+        if h == "localfunc":
+            return "(localfunc %d (%s) %d %s)" % (s[1], " ".join(str(k) for k in s[2]), 1 if s[3] else 0, blk(s[4]))
+        raise ValueError(s)
+    return blk(b)
 
 
 def commas(lists):
@@ -238,6 +288,37 @@ def stat_sx(s, en):
     raise ValueError(s)
 
 
+def strip_return_semis(b, g, case):
+    """the generator's tokens for this chunk without the optional ';' after return (which StatPrint never prints)"""
+    return block_toks(nosemi(b), case["et"])
+
+
+def nosemi(b):
+    def blk(b):
+        return ("block", [st(s) for s in b[1]], None if b[2] is None else (b[2][0], False))
+
+    def st(s):
+        h = s[0]
+        if h == "do":
+            return ("do", blk(s[1]))
+        if h == "while":
+            return ("while", s[1], blk(s[2]))
+        if h == "repeat":
+            return ("repeat", blk(s[1]), s[2])
+        if h == "if":
+            return ("if", s[1], blk(s[2]), [(c, blk(bb)) for c, bb in s[3]], None if s[4] is None else blk(s[4]))
+        if h == "fornum":
+            return s[:5] + (blk(s[5]),)
+        if h == "forin":
+            return s[:3] + (blk(s[3]),)
+        if h == "funcstat":
+            return s[:5] + (blk(s[5]),)
+        if h == "localfunc":
+            return s[:4] + (blk(s[4]),)
+        return s
+    return blk(b)
+
+
 def go_tok(t):
     body, _, line = t.rpartition("@")
     if body == "name:const":
@@ -275,7 +356,7 @@ def check_statements(ck, gvh, oracle, tier, st):
     n = 1500 if tier == "quick" else 30000
     chunks = []
     for i in range(n):
-        g = Gen(rng)
+        g = Gen(rng, spell=(i % 3 != 0))
         b = g.block(1 + rng.below(3))
         chunks.append((g, b))
     # expressions through the extracted printer
@@ -289,15 +370,46 @@ def check_statements(ck, gvh, oracle, tier, st):
         return
     j = 0
     cases = []
+    rs_lines, rs_idx = [], []
     for ci, (g, b) in enumerate(chunks):
         et, en = [], []
+        allplain = True
         for e in g.exps:
             parts = rout[j].split(" @@ ")
             j += 1
             et.append(parts[0].split(" ")[1:])
             en.append(A.sx(A.norm(e)))
+            allplain = allplain and parts[2] == "1"
         toks = block_toks(b, et)
-        cases.append({"toks": toks, "expect": block_sx(b, en), "kind": "valid"})
+        # a bare 'return' followed by ';' is a spelling the Coq printer does not produce
+        cases.append({"toks": toks, "expect": block_sx(b, en), "kind": "valid", "plain": allplain and not g.spell, "et": et})
+        if not g.spell:
+            rs_lines.append("y%d RS %s" % (ci, tree_sx(b, g.exps)))
+            rs_idx.append(ci)
+    # the proven printer (StatPrint.print_chunk) against the generator's printer, wf_block, and the theorem re-evaluated
+    rc, rsout, rserr = vlib.run_lines(oracle, [], rs_lines, timeout=3000)
+    if rc != 0 or len(rsout) != len(rs_lines):
+        ck.violation("oracle crashed on RS lines (%d/%d)" % (len(rsout), len(rs_lines)), {"kind": "oracle-crash", "stderr": rserr[-1500:]}, no_input=True)
+        return
+    nwf = 0
+    for ci, l in zip(rs_idx, rsout):
+        parts = l.split(" @@ ")
+        coq_toks = [t for t in parts[0].split(" ")[1:] if t]
+        py_cmp = strip_return_semis(chunks[ci][1], chunks[ci][0], cases[ci])
+        ck.count("e:coq-printer")
+        if parts[1] == "1":
+            nwf += 1
+        bad = None
+        if coq_toks != py_cmp:
+            bad = "StatPrint.print_chunk differs from the generator's printer"
+        elif cases[ci]["plain"] and parts[1] != "1":
+            bad = "wf_block false on a chunk of plain expressions"
+        elif parts[1] == "1" and parts[2] != "same":
+            bad = "extracted parse_chunk (print_chunk b) <> Ok b on a well-formed chunk (contradicts C12_parse_chunk_print)"
+        if bad:
+            ck.violation(bad, {"kind": "model-self", "tree": rs_lines[rs_idx.index(ci)][:3000], "oracle": l[:3000]}, no_input=True)
+            break
+    ck.cov["chunks_wf_roundtrip_reevaluated"] = nwf
     # single-token corruptions of a third of them
     for c in list(cases[: len(cases) // 3]):
         toks = c["toks"]
